@@ -23,6 +23,7 @@ REGISTRY = {
     'C20': 'harness.c20',
     'X01': 'harness.x01',      # extension checks (not listed properties; not in MANIFEST)
     'X02': 'harness.x02',
+    'X03': 'harness.x03',
 }
 
 if __name__ == '__main__':
